@@ -69,11 +69,12 @@ def probe_sig(p, what, o):
     bad = p["exp"]["bad"]
     vkind = bad[0]["kind"] if bad else "none"
     err = re.sub(r"^.*?probe:\d+:\d+: ", "", o["parseErr"] or o["compileErr"] or "")
+    names = "|".join(o["named"])       # the words of the error text: which statements it names (never its wording) may be matched
     if lab[0] in ("card", "big"):
-        return dict(fam=lab[0], what=what, phase=phase, site=lab[1], kw=lab[2], n=lab[3], vkind=vkind, argkind="", arg="", err=err)
+        return dict(fam=lab[0], what=what, phase=phase, site=lab[1], kw=lab[2], n=lab[3], vkind=vkind, argkind="", arg="", err=err, names=names)
     if lab[0] == "arg":
-        return dict(fam="arg", what=what, phase=phase, site=lab[2], kw=lab[2], vkind="argument", argkind=lab[1], arg=lab[3], err=err)
-    return dict(fam=lab[0], what=what, phase=phase, site=lab[1], kw=bad[0]["kw"] if bad else "", vkind=vkind, argkind="", arg="", err=err)
+        return dict(fam="arg", what=what, phase=phase, site=lab[2], kw=lab[2], vkind="argument", argkind=lab[1], arg=lab[3], err=err, names=names)
+    return dict(fam=lab[0], what=what, phase=phase, site=lab[1], kw=bad[0]["kw"] if bad else "", vkind=vkind, argkind="", arg="", err=err, names=names)
 
 
 def run(ctx):
@@ -167,7 +168,7 @@ def run(ctx):
     for f in fails:
         err = re.sub(r"^.*?probe:\d+:\d+: ", "", f["err"])
         ctx.disagree(dict(fam="trace", what=f["what"], phase=f["phase"], site=f["site"], kw=f["kw"], vkind=f["vkind"],
-                          argkind=f["argkind"], arg=f["arg"], err=err),
+                          argkind=f["argkind"], arg=f["arg"], err=err, names="|".join(f["named"])),
                      f"event {f['id']} ({f['mut']}): {f['what']} {f['vkind']} {f['kw']} in {f['site']}",
                      dict(kind="trace", failure=f, how="event id in events.ndjson of bin/check C09 (VERIF_KEEP=1)"))
     cov = dict(
